@@ -18,6 +18,7 @@ RULE = ("exhaustive strings over reduced byte alphabets (len<=5 over {00,01,7f,8
 ASSUMPTIONS = [
     "the independent Python reference, the C transcription (ASan+UBSan) and 17 published vectors agree with one another (checked each run)",
     "strings of code points 0..255 are identified with bytes via latin-1",
+    "for other strings the statement only demands a deterministic 32-bit value; additionally (release stability, last sentence of the statement) the value must stay what the pinned release computes, i.e. the reference applied to code points mod 256",
 ]
 MIN_NONTRIVIAL = {"quick": 50000, "thorough": 1000000}
 REQUIRED_COUNTERS = ["contract_evaluations", "vectors_checked"]
@@ -175,6 +176,10 @@ def shard(tier, seed, idx, n):
         res.count("nonlatin1_checks")
         if a != b:
             res.violation("nondeterministic-nonlatin1", "differs", (s, sd))
+        if a != refs.murmur3_mod256(s, sd):
+            res.violation("nonlatin1-value-changed-between-releases",
+                          "murmur3_32(%r, %#x) = %#x; the pinned release computes %#x (placement of such keys would move)"
+                          % (s, sd, a, refs.murmur3_mod256(s, sd)), (s, sd))
         res.case(("nl", s, sd))
     # the name bound in rendezvous.py is really monitored
     before = res.counters["contract_evaluations"]
